@@ -9,6 +9,8 @@ use std::panic::{catch_unwind, AssertUnwindSafe};
 mod ops;
 mod regs;
 mod lexer;
+mod nodes;
+mod decode;
 
 pub fn geti(v: &serde_json::Value, k: &str) -> Option<i64> {
     v.get("inputs")?.get(k)?.as_i64()
@@ -25,6 +27,9 @@ fn main() {
         Some("ops-math-op") => ops::math_op(&v),
         Some("ops-scalar-op") => ops::scalar_op(&v),
         Some("ops-search") => ops::search(&v),
+        Some("decode-search") => decode::search(&v),
+        Some("getany-search") => nodes::getany_search(&v),
+        Some("nodes-search") => nodes::nodes_search(&v),
         Some("lexer-search") => lexer::search(&v),
         Some("regs") => regs::run(args.get(1).map(String::as_str).unwrap_or(""), &v),
         _ => {
